@@ -19,8 +19,8 @@ import (
 var c12Elements = &simdjson.Elements{Elements: make([]simdjson.Element, 0, 2), Index: map[string]int{"stale-key": 7}}
 var c12ParseCalls int
 
-var c12Keys = []string{"a", "b", "ab", "ba", ""}
-var c12Probe = []string{"a", "b", "ab", "ba", "", "zz", "c"} // two absent keys, one of equal length
+var c12Keys = []string{"a", "b", "ab", "ba", "", "a/b"}
+var c12Probe = []string{"a", "b", "ab", "ba", "", "a/b", "zz", "c"} // a key holding the path separator of the docs; two absent keys, one of equal length
 
 // modelFindPath follows a key path through objects (first member wins).
 // ok=false,notObj=false: ErrPathNotFound; notObj=true: runs through a non-object.
